@@ -289,7 +289,9 @@ func (c *compiler) ProcessWhileStat(s ast.WhileStat) {
 }
 
 func (c *compiler) CompileStat(s ast.Stat) {
+	c.enterNode(s)
 	s.ProcessStat(c)
+	c.leaveNode()
 }
 
 //
